@@ -42,6 +42,10 @@ func parse(str string, l ZitiQlListener, el antlr.ErrorListener, debug bool) {
 	input := antlr.NewInputStream(str)
 	lexer.SetInputStream(input)
 
+	// report characters the lexer cannot tokenize instead of silently dropping them
+	lexer.RemoveErrorListeners()
+	lexer.AddErrorListener(el)
+
 	p := parserPool.Get().(*ZitiQlParser)
 	defer parserPool.Put(p)
 
@@ -105,7 +109,7 @@ func (el *ErrorListener) SyntaxError(_ antlr.Recognizer, offendingSymbol interfa
 		Line:    line,
 		Column:  column,
 		Symbol:  symbol,
-		Message: fmt.Sprintf(`Unexpected symbol: "%s" at line: %d column: %d`, s.GetText(), line, column),
+		Message: fmt.Sprintf(`Unexpected symbol: "%s" at line: %d column: %d`, symbol, line, column),
 	})
 }
 
